@@ -385,7 +385,8 @@ Proof.
     destruct f as [s|rf|nm ps|rf|nm ps|rf|e|it|it]; cbn [refs_of_property].
     1-7: inv_ok H; eapply finish_only; [exact H|]; pose proof (IH _ _ _ E) as Hi; unfold item_imps in Hi;
          intros x Hx; apply Hi; apply in_or_app; left; exact Hx.
-    + inv_ok H. eapply finish_only; [exact H|]. exact (IHit _ _ _ E).
+    + inv_ok H. eapply finish_only; [exact H|]. pose proof (IHit _ _ _ E) as Hi. unfold item_imps in Hi.
+      intros x [<-|Hx]; [left; unfold infra_files; cbn [In]; tauto|apply Hi; exact Hx].
     + inv_ok H. destruct io; [discriminate|]. eapply finish_only; [exact H|].
       pose proof (IHit _ _ _ E) as Hi. unfold item_imps in Hi. intros x Hx. apply Hi. apply in_or_app. left. exact Hx.
 Qed.
